@@ -415,7 +415,7 @@ func (p *Parser) parseAmount() *ast.Amount {
 				Position: ast.CommodityRight,
 				Range: ast.Range{
 					Start: toASTPosition(p.current.Pos),
-					End:   toASTPosition(p.current.End),
+					End:   symbolEnd(p.current),
 				},
 			}
 			p.advance()
@@ -537,7 +537,7 @@ func (p *Parser) parseCommodityDirective(startPos Position) ast.Directive {
 		symbol := p.current.Value
 		dir.Commodity = ast.Commodity{
 			Symbol: symbol,
-			Range:  ast.Range{Start: toASTPosition(p.current.Pos)},
+			Range:  ast.Range{Start: toASTPosition(p.current.Pos), End: toASTPosition(p.current.End)},
 		}
 		p.advance()
 
@@ -554,7 +554,7 @@ func (p *Parser) parseCommodityDirective(startPos Position) ast.Directive {
 		if p.current.Type == TokenCommodity || p.current.Type == TokenText {
 			dir.Commodity = ast.Commodity{
 				Symbol: p.current.Value,
-				Range:  ast.Range{Start: toASTPosition(p.current.Pos)},
+				Range:  ast.Range{Start: toASTPosition(p.current.Pos), End: symbolEnd(p.current)},
 			}
 			dir.Format = number + " " + p.current.Value
 			p.advance()
@@ -562,7 +562,7 @@ func (p *Parser) parseCommodityDirective(startPos Position) ast.Directive {
 	case TokenText:
 		dir.Commodity = ast.Commodity{
 			Symbol: p.current.Value,
-			Range:  ast.Range{Start: toASTPosition(p.current.Pos)},
+			Range:  ast.Range{Start: toASTPosition(p.current.Pos), End: symbolEnd(p.current)},
 		}
 		p.advance()
 	}
@@ -882,6 +882,19 @@ func (p *Parser) errorAt(pos Position, format string, args ...any) {
 		Message: fmt.Sprintf(format, args...),
 		Pos:     pos,
 	})
+}
+
+// symbolEnd is where a commodity symbol ends. A symbol lexed as free text may be
+// followed by blanks inside the same token; they are not part of the symbol.
+func symbolEnd(tok Token) ast.Position {
+	if tok.Type != TokenText {
+		return toASTPosition(tok.End)
+	}
+	return ast.Position{
+		Line:   tok.Pos.Line,
+		Column: tok.Pos.Column + utf16Len(tok.Value),
+		Offset: tok.Pos.Offset + len(tok.Value),
+	}
 }
 
 func toASTPosition(pos Position) ast.Position {
